@@ -1,5 +1,6 @@
 import IceProofs.Sys2C20Defs
 import IceProofs.Sys2C05Outs
+import IceProofs.Sys2C20LogQ
 /-!
 # C20 on `Sys2` — the nomination content of the outputs of every helper of `step`
 
@@ -170,27 +171,7 @@ theorem q_sendRequest (a : Agent) (now : Nat) (l r : Cand) (uc u : Bool) (h : uc
   unfold Agent.doRestart
   ok_cases
 
-/-! ## helpers that may nominate: no nomination VALUE in any case -/
-
-@[simp] theorem t_contactCandidates (a : Agent) (now : Nat) : OutsQ true (a.contactCandidates now).2 := by
-  unfold Agent.contactCandidates
-  ok_cases
-
-@[simp] theorem t_contact (a : Agent) (now : Nat) : OutsQ true (a.contact now).2 := by
-  unfold Agent.contact
-  ok_cases
-
-@[simp] theorem t_runForced (a : Agent) (now : Nat) : OutsQ true (a.runForced now).2 := by
-  unfold Agent.runForced
-  ok_cases
-
-@[simp] theorem t_runTimers (a : Agent) (now fuel : Nat) : OutsQ true (a.runTimers now fuel).2 := by
-  induction fuel generalizing a with
-  | zero => simp [Agent.runTimers]
-  | succ n ih =>
-    unfold Agent.runTimers
-    (try simp only []); (repeat' split) <;> (pair_subst; (try simp at *))
-    exact ih _
+/-! ## helpers that may nominate (never with a value) -/
 
 @[simp] theorem t_ctlHandleRequest (a : Agent) (now : Nat) (m : Msg) (l r : Cand) :
     OutsQ true (a.ctlHandleRequest now m l r).2 := by
@@ -244,23 +225,6 @@ theorem step_renominate_out (a : Agent) (now la ri value : Nat) (f t : Nat) (m :
     refine ⟨rfl, rfl, rfl, ?_⟩
     simp only [issueOf, hc, hen, Bool.and_self, if_true, hl, hr, hp]
     rw [hf, ht, localByAddr_addr hl]
-
-/-- every event but `.renominate`: no datagram carries a nomination value -/
-theorem step_outs_t (a : Agent) (e : Ev) (hne : ∀ now la ri v, e ≠ .renominate now la ri v) : OutsQ true (step a e).2 := by
-  cases e with
-  | addLocal now c => simp [step]
-  | addRemote now c => simp only [step]; ok_cases
-  | start now ctl ru rp => simp only [step]; ok_cases
-  | setRemoteCreds ru rp => simp only [step]; ok_cases
-  | advance now => simp [step]
-  | inbound now la src m => simp only [step]; ok_cases
-  | inboundData now la src len s => simp only [step]; ok_cases
-  | write now len s => simp [step]
-  | writeToPair now id len s => simp [step]
-  | read => simp only [step]; ok_cases
-  | renominate now la ri v => exact absurd rfl (hne now la ri v)
-  | restart now u p => simp only [step]; ok_cases
-  | close => simp only [step]; ok_cases
 
 /-! ## the selection through the helpers -/
 
@@ -398,7 +362,122 @@ theorem f_handleInbound (a : Agent) (now : Nat) (l : Cand) (src : Nat) (m : Msg)
   unfold Agent.handleInbound
   ok_cases
 
-/-! ## timer-driven work from a state with a selected pair -/
+/-! ## the timer path: a nomination leaves only as a logged one
+
+The controlling selector's automatic check (`Agent.autoRenom`, inside every tick while a pair is selected) sends a
+nomination of its own.  `OutL u s`: the message is as `MsgQ u` says, or it is a nomination logged in `s`: a USE-CANDIDATE
+request from `f` to `t` whose value `v` (the attribute is there iff `v > 0`) has the entry `(v, f, t)`.
+`TL u a r`: running from `a` with result `r`, the ghost log only grew and every datagram put on the wire is `OutL u` of what
+was logged meanwhile. -/
+
+def OutL (u : Bool) (s : List (Nat × Nat × Nat)) : Out → Prop
+  | .dgram f t m =>
+    MsgQ u m ∨ (m.cls = 0 ∧ m.useCand = true ∧ ∃ v, (v, f, t) ∈ s ∧ m.nom = (if v > 0 then some v else none))
+  | _ => True
+
+def OutsL (u : Bool) (s : List (Nat × Nat × Nat)) (o : List Out) : Prop := ∀ x ∈ o, OutL u s x
+
+theorem OutsL.mono {u : Bool} {s s' : List (Nat × Nat × Nat)} {o : List Out} (h : OutsL u s o) (hs : ∀ x ∈ s, x ∈ s') :
+    OutsL u s' o := by
+  intro x hx
+  have := h x hx
+  cases x <;> try trivial
+  rcases this with h1 | ⟨h1, h2, v, h3, h4⟩
+  · exact Or.inl h1
+  · exact Or.inr ⟨h1, h2, v, hs _ h3, h4⟩
+
+theorem OutsQ.toL {u : Bool} {o : List Out} (h : OutsQ u o) (s : List (Nat × Nat × Nat)) : OutsL u s o := by
+  intro x hx
+  have := h x hx
+  cases x <;> try trivial
+  exact Or.inl this
+
+theorem OutsL.append {u : Bool} {s : List (Nat × Nat × Nat)} {o1 o2 : List Out} (h1 : OutsL u s o1) (h2 : OutsL u s o2) :
+    OutsL u s (o1 ++ o2) := by
+  intro x hx
+  rcases List.mem_append.mp hx with hx | hx
+  · exact h1 x hx
+  · exact h2 x hx
+
+theorem OutsL.mem {u : Bool} {s : List (Nat × Nat × Nat)} {o : List Out} (h : OutsL u s o) {f t : Nat} {m : Msg}
+    (hm : Out.dgram f t m ∈ o) :
+    MsgQ u m ∨ (m.cls = 0 ∧ m.useCand = true ∧ ∃ v, (v, f, t) ∈ s ∧ m.nom = (if v > 0 then some v else none)) :=
+  h _ hm
+
+def TL (u : Bool) (a : Agent) (r : Agent × List Out) : Prop :=
+  a.nomIssued <+: r.1.nomIssued ∧ OutsL u (logSfx a r.1) r.2
+
+theorem TL.refl (u : Bool) (a : Agent) : TL u a (a, []) := ⟨List.prefix_refl _, fun _ h => by cases h⟩
+
+/-- a helper that nominates nothing and leaves the log alone -/
+theorem TL.of_q {u : Bool} {a : Agent} {r : Agent × List Out} (hq : OutsQ u r.2) (hl : r.1.ilog = a.ilog) : TL u a r :=
+  ⟨by rw [ilog_field hl]; exact List.prefix_refl _, hq.toL _⟩
+
+theorem TL.seq {u : Bool} {a : Agent} {r1 r2 : Agent × List Out} (h1 : TL u a r1) (h2 : TL u r1.1 r2) :
+    TL u a (r2.1, r1.2 ++ r2.2) :=
+  ⟨List.IsPrefix.trans h1.1 h2.1,
+   OutsL.append (h1.2.mono fun _ hx => mem_logSfx_left h1.1 h2.1 hx) (h2.2.mono fun _ hx => mem_logSfx_right h1.1 h2.1 hx)⟩
+
+/-- followed by a silent update that leaves the log alone -/
+theorem TL.andThen {u : Bool} {a b : Agent} {r : Agent × List Out} (h : TL u a r) (hl : b.nomIssued = r.1.nomIssued) :
+    TL u a (b, r.2) := by
+  refine ⟨by rw [hl]; exact h.1, ?_⟩
+  have : logSfx a b = logSfx a r.1 := by unfold logSfx; rw [hl]
+  rw [this]; exact h.2
+
+/-- preceded by a silent update that leaves the log alone -/
+theorem TL.after {u : Bool} {a b : Agent} {r : Agent × List Out} (hl : b.nomIssued = a.nomIssued) (h : TL u b r) :
+    TL u a r := by
+  refine ⟨by rw [← hl]; exact h.1, ?_⟩
+  have : logSfx a r.1 = logSfx b r.1 := by unfold logSfx; rw [hl]
+  rw [this]; exact h.2
+
+theorem TL.weaken {a : Agent} {r : Agent × List Out} (h : TL false a r) (u : Bool) : TL u a r := by
+  refine ⟨h.1, fun x hx => ?_⟩
+  have := h.2 x hx
+  cases x <;> try trivial
+  rcases this with h1 | h1
+  · exact Or.inl ⟨h1.1, fun h0 h2 => absurd (h1.2 h0 h2) (by simp)⟩
+  · exact Or.inr h1
+
+/-- a nomination as the automatic check issues it: the request and its log entry -/
+theorem tl_issue (u : Bool) (b : Agent) (now : Nat) (l r : Cand) (v : Nat) :
+    TL u b (({ (b.sendRequest now l r true (if v > 0 then some v else none)).1 with
+        nomIssued := (b.sendRequest now l r true (if v > 0 then some v else none)).1.nomIssued ++ [(v, l.addr, r.addr)] } : Agent),
+      (b.sendRequest now l r true (if v > 0 then some v else none)).2) := by
+  have hlog := ilog_field (ilog_sendRequest b now l r true (if v > 0 then some v else none))
+  refine ⟨?_, ?_⟩
+  · show b.nomIssued <+: (b.sendRequest now l r true (if v > 0 then some v else none)).1.nomIssued ++ _
+    rw [hlog]; exact List.prefix_append _ _
+  · have hs : logSfx b ({ (b.sendRequest now l r true (if v > 0 then some v else none)).1 with
+        nomIssued := (b.sendRequest now l r true (if v > 0 then some v else none)).1.nomIssued ++ [(v, l.addr, r.addr)] } : Agent)
+        = [(v, l.addr, r.addr)] := logSfx_of_append (by
+          show (b.sendRequest now l r true (if v > 0 then some v else none)).1.nomIssued ++ _ = _
+          rw [hlog])
+    show OutsL u (logSfx b _) (b.sendRequest now l r true (if v > 0 then some v else none)).2
+    rw [hs, sendRequest_out]
+    intro x hx
+    simp only [List.mem_singleton] at hx
+    subst hx
+    exact Or.inr ⟨rfl, rfl, v, by simp, rfl⟩
+
+/-- the automatic-renomination block: ordinary checks, and at most one nomination — logged -/
+theorem tl_autoRenom (u : Bool) (a : Agent) (now : Nat) : TL u a (a.autoRenom now) := by
+  refine IceProofs.Auto.autoRenom_closed (P := fun x => TL u a x) ?_ a (TL.refl u a)
+  exact {
+    mark := fun b o _ _ h _ _ => TL.andThen (r := (b, o)) h rfl
+    ping := fun b o l r h _ _ => TL.seq (r1 := (b, o)) h (TL.of_q (q_ping b now l r u) (ilog_ping b now l r))
+    time := fun b o h => TL.andThen (r := (b, o)) h rfl
+    count := fun b o h => TL.andThen (r := (b, o)) h rfl
+    issue := fun b o l r v h _ _ _ _ _ => TL.seq (r1 := (b, o)) h (tl_issue u b now l r v) }
+
+theorem sel_autoRenom (a : Agent) (now : Nat) : (a.autoRenom now).1.selected = a.selected :=
+  IceProofs.Auto.autoRenom_proj (fun x => x.selected) now (fun _ _ _ => rfl)
+    (fun b l r u n => sel_sendRequest b now l r u n) (fun _ _ => rfl) (fun _ _ => rfl) (fun _ _ => rfl) a
+
+theorem cs_autoRenom (a : Agent) (now : Nat) : (a.autoRenom now).1.connState = a.connState :=
+  IceProofs.Auto.autoRenom_proj (fun x => x.connState) now (fun _ _ _ => rfl)
+    (fun b l r u n => cs_sendRequest b now l r u n) (fun _ _ => rfl) (fun _ _ => rfl) (fun _ _ => rfl) a
 
 /-- a pair is selected, or the agent has gone to Failed (where the tick does nothing) -/
 def PSel (a : Agent) : Prop := a.selected.isSome = true ∨ a.connState = .failed
@@ -428,84 +507,200 @@ theorem validateSelected_psel (a : Agent) (now : Nat) (h : a.selected.isSome = t
     · exact Or.inl (by rw [h1]; exact h)
     · exact Or.inr h1
 
-theorem valKeep_psel (a : Agent) (now : Nat) (h : a.selected.isSome = true) :
-    PSel (C03.valKeep a now).1 ∧ OutsQ false (C03.valKeep a now).2 := by
-  have h1 := validateSelected_psel a now h
-  have q1 := q_validateSelected a now false
+theorem tl_validateSelected (u : Bool) (a : Agent) (now : Nat) :
+    TL u a ((a.validateSelected now).1, (a.validateSelected now).2.1) :=
+  TL.of_q (q_validateSelected a now u) (ilog_validateSelected a now)
+
+/-- validate, keepalive (no automatic block): nothing nominated -/
+theorem tl_valKeep (u : Bool) (a : Agent) (now : Nat) : TL u a (C03.valKeep a now) := by
   unfold C03.valKeep
-  generalize a.validateSelected now = r at h1 q1 ⊢
+  have h1 := tl_validateSelected u a now
+  generalize a.validateSelected now = r at h1 ⊢
   obtain ⟨a1, o1, ok⟩ := r
-  simp only [] at h1 q1 ⊢
+  simp only [] at h1 ⊢
   split
-  · have k1 := sel_keepalive a1 now
-    have k2 := cs_keepalive a1 now
-    have q2 := q_keepalive a1 now false
-    generalize a1.keepalive now = r2 at k1 k2 q2 ⊢
+  · have h2 : TL u a1 (a1.keepalive now) := TL.of_q (q_keepalive a1 now u) (ilog_keepalive a1 now)
+    generalize a1.keepalive now = r2 at h2 ⊢
     obtain ⟨a2, o2⟩ := r2
-    simp only [] at k1 k2 q2 ⊢
-    refine ⟨?_, by simp [q1, q2]⟩
-    unfold PSel
-    rw [k1, k2]
+    exact TL.seq (r1 := (a1, o1)) h1 h2
+  · exact h1
+
+/-- validate, keepalive, the automatic block: only the logged nomination -/
+theorem tl_valKeepAuto (u : Bool) (a : Agent) (now : Nat) : TL u a (C03.valKeepAuto a now) := by
+  unfold C03.valKeepAuto
+  have h1 := tl_validateSelected u a now
+  generalize a.validateSelected now = r at h1 ⊢
+  obtain ⟨a1, o1, ok⟩ := r
+  simp only [] at h1 ⊢
+  split
+  · have h2 : TL u a1 (a1.keepalive now) := TL.of_q (q_keepalive a1 now u) (ilog_keepalive a1 now)
+    generalize a1.keepalive now = r2 at h2 ⊢
+    obtain ⟨a2, o2⟩ := r2
+    have h3 := tl_autoRenom u a2 now
+    generalize a2.autoRenom now = r3 at h3 ⊢
+    obtain ⟨a3, o3⟩ := r3
+    exact TL.seq (r1 := (a2, o1 ++ o2)) (TL.seq (r1 := (a1, o1)) h1 h2) h3
+  · exact h1
+
+theorem valKeep_psel (a : Agent) (now : Nat) (h : a.selected.isSome = true) : PSel (C03.valKeep a now).1 := by
+  have h1 := validateSelected_psel a now h
+  unfold C03.valKeep
+  generalize a.validateSelected now = r at h1 ⊢
+  obtain ⟨a1, o1, ok⟩ := r
+  simp only [] at h1 ⊢
+  split
+  · unfold PSel
+    rw [sel_keepalive, cs_keepalive]
     exact h1
-  · exact ⟨h1, q1⟩
+  · exact h1
+
+theorem valKeepAuto_psel (a : Agent) (now : Nat) (h : a.selected.isSome = true) : PSel (C03.valKeepAuto a now).1 := by
+  have h1 := validateSelected_psel a now h
+  unfold C03.valKeepAuto
+  generalize a.validateSelected now = r at h1 ⊢
+  obtain ⟨a1, o1, ok⟩ := r
+  simp only [] at h1 ⊢
+  split
+  · unfold PSel
+    rw [sel_autoRenom, cs_autoRenom, sel_keepalive, cs_keepalive]
+    exact h1
+  · exact h1
+
+/-! ### `contactCandidates` -/
+
+/-- any state: whatever the tick sends carries a nomination value only as a logged nomination -/
+theorem tl_contactCandidates (a : Agent) (now : Nat) : TL true a (a.contactCandidates now) := by
+  unfold Agent.contactCandidates
+  split
+  · split
+    · exact tl_valKeepAuto true a now
+    · split
+      · exact TL.of_q (q_nominate _ _ _) (ilog_nominate _ _ _)
+      · split
+        · exact TL.refl _ _
+        · split
+          · split
+            · split
+              · exact TL.of_q (q_nominate _ _ _) ((ilog_nominate _ _ _).trans rfl)
+              · exact TL.of_q (q_pingAll _ _ _) (ilog_pingAll _ _)
+            · exact TL.of_q (q_pingAll _ _ _) (ilog_pingAll _ _)
+          · exact TL.of_q (q_pingAll _ _ _) (ilog_pingAll _ _)
+  · split
+    · exact tl_validateSelected true a now
+    · split
+      · exact tl_valKeep true a now
+      · exact TL.of_q (q_pingAll _ _ _) (ilog_pingAll _ _)
 
 theorem contactCandidates_sel_eq (a : Agent) (now : Nat) (h : a.selected.isSome = true) :
     a.contactCandidates now =
-      if a.controlling then C03.valKeep a now
+      if a.controlling then C03.valKeepAuto a now
       else if a.cfg.lite then ((a.validateSelected now).1, (a.validateSelected now).2.1)
       else C03.valKeep a now := by
-  unfold Agent.contactCandidates C03.valKeep
+  unfold Agent.contactCandidates C03.valKeep C03.valKeepAuto
   simp only [h, if_true]
 
+/-- with a selected pair: no USE-CANDIDATE request but the logged nomination -/
 theorem contactCandidates_psel (a : Agent) (now : Nat) (h : a.selected.isSome = true) :
-    PSel (a.contactCandidates now).1 ∧ OutsQ false (a.contactCandidates now).2 := by
+    PSel (a.contactCandidates now).1 ∧ TL false a (a.contactCandidates now) := by
   rw [contactCandidates_sel_eq a now h]
   split
-  · exact valKeep_psel a now h
+  · exact ⟨valKeepAuto_psel a now h, tl_valKeepAuto false a now⟩
   · split
-    · exact ⟨validateSelected_psel a now h, q_validateSelected a now false⟩
-    · exact valKeep_psel a now h
+    · exact ⟨validateSelected_psel a now h, tl_validateSelected false a now⟩
+    · exact ⟨valKeep_psel a now h, tl_valKeep false a now⟩
+
+/-! ### `contact`, `runForced`, `runTimers` -/
+
+theorem TL.fin {u : Bool} {a : Agent} {r : Agent × List Out} (h : TL u a r) : TL u a (C03.finish r) :=
+  TL.andThen h rfl
+
+theorem chk_nomIssued (a : Agent) (now : Nat) : (C03.chk a now).nomIssued = a.nomIssued := by
+  unfold C03.chk
+  split <;> rfl
 
 theorem chk_sel (a : Agent) (now : Nat) : (C03.chk a now).selected = a.selected := by
   unfold C03.chk
   split <;> rfl
 
-theorem contact_psel (a : Agent) (now : Nat) (h : PSel a) : PSel (a.contact now).1 ∧ OutsQ false (a.contact now).2 := by
+theorem tl_contact (a : Agent) (now : Nat) : TL true a (a.contact now) := by
   rw [C03.contact_eq]
   split
-  · exact ⟨h, by simp⟩
+  · exact TL.refl _ _
+  · split
+    · exact (TL.refl true a).fin
+    · split
+      · exact (TL.after (chk_nomIssued a now) (TL.of_q (r := (C03.chk a now).setConnState .failed)
+          (q_setConnState _ _ _) (ilog_setConnState _ _))).fin
+      · exact (TL.after (chk_nomIssued a now) (tl_contactCandidates _ now)).fin
+    · exact (tl_contactCandidates a now).fin
+
+theorem contact_psel (a : Agent) (now : Nat) (h : PSel a) : PSel (a.contact now).1 ∧ TL false a (a.contact now) := by
+  rw [C03.contact_eq]
+  split
+  · exact ⟨h, TL.refl _ _⟩
   · split
     · rename_i hc
-      exact ⟨Or.inr hc, by simp [C03.finish]⟩
+      exact ⟨Or.inr hc, (TL.refl false a).fin⟩
     · rename_i hc
       have hs : a.selected.isSome = true := by
         rcases h with h | h
         · exact h
         · rw [hc] at h; cases h
       split
-      · exact ⟨Or.inr (setConnState_csQ _ _), by simp [C03.finish]⟩
+      · exact ⟨Or.inr (setConnState_csQ _ _), (TL.after (chk_nomIssued a now) (TL.of_q
+          (r := (C03.chk a now).setConnState .failed) (q_setConnState _ _ _) (ilog_setConnState _ _))).fin⟩
       · have := contactCandidates_psel (C03.chk a now) now (by rw [chk_sel]; exact hs)
-        exact this
+        exact ⟨this.1, (TL.after (chk_nomIssued a now) this.2).fin⟩
     · rename_i hnf hnc
       have hs : a.selected.isSome = true := by
         rcases h with h | h
         · exact h
         · exact absurd h hnf
-      exact contactCandidates_psel a now hs
+      have := contactCandidates_psel a now hs
+      exact ⟨this.1, this.2.fin⟩
 
-theorem runForced_psel (a : Agent) (now : Nat) (h : PSel a) : PSel (a.runForced now).1 ∧ OutsQ false (a.runForced now).2 := by
+theorem tl_runForced (a : Agent) (now : Nat) : TL true a (a.runForced now) := by
+  unfold Agent.runForced
+  split
+  · have h := tl_contact { a with forcePending := false } now
+    generalize Agent.contact { a with forcePending := false } now = r at h ⊢
+    obtain ⟨a1, o1⟩ := r
+    exact TL.andThen (r := (a1, o1)) (TL.after (a := a) rfl h) rfl
+  · exact TL.refl _ _
+
+theorem runForced_psel (a : Agent) (now : Nat) (h : PSel a) : PSel (a.runForced now).1 ∧ TL false a (a.runForced now) := by
   unfold Agent.runForced
   split
   · have := contact_psel { a with forcePending := false } now h
     generalize Agent.contact { a with forcePending := false } now = r at this ⊢
     obtain ⟨a1, o1⟩ := r
-    exact this
-  · exact ⟨h, by simp⟩
+    exact ⟨this.1, TL.andThen (r := (a1, o1)) (TL.after (a := a) rfl this.2) rfl⟩
+  · exact ⟨h, TL.refl _ _⟩
+
+theorem tl_runTimers (a : Agent) (now fuel : Nat) : TL true a (a.runTimers now fuel) := by
+  induction fuel generalizing a with
+  | zero => exact TL.refl _ _
+  | succ n ih =>
+    unfold Agent.runTimers
+    split
+    · rename_i t _
+      split
+      · have h1 := tl_contact a t
+        generalize a.contact t = r at h1 ⊢
+        obtain ⟨a1, o1⟩ := r
+        simp only [] at h1 ⊢
+        have h2 := ih { a1 with nextTick := some (t + a1.interval) }
+        generalize Agent.runTimers { a1 with nextTick := some (t + a1.interval) } now n = r2 at h2 ⊢
+        obtain ⟨a2, o2⟩ := r2
+        exact TL.seq (r1 := ({ a1 with nextTick := some (t + a1.interval) }, o1))
+          (TL.andThen (r := (a1, o1)) h1 rfl) h2
+      · exact TL.refl _ _
+    · exact TL.refl _ _
 
 theorem runTimers_psel (a : Agent) (now fuel : Nat) (h : PSel a) :
-    PSel (a.runTimers now fuel).1 ∧ OutsQ false (a.runTimers now fuel).2 := by
+    PSel (a.runTimers now fuel).1 ∧ TL false a (a.runTimers now fuel) := by
   induction fuel generalizing a with
-  | zero => exact ⟨h, by simp [Agent.runTimers]⟩
+  | zero => exact ⟨h, TL.refl _ _⟩
   | succ n ih =>
     unfold Agent.runTimers
     split
@@ -518,48 +713,317 @@ theorem runTimers_psel (a : Agent) (now fuel : Nat) (h : PSel a) :
         have h2 := ih { a1 with nextTick := some (t + a1.interval) } h1.1
         generalize Agent.runTimers { a1 with nextTick := some (t + a1.interval) } now n = r2 at h2 ⊢
         obtain ⟨a2, o2⟩ := r2
-        simp only [] at h2 ⊢
-        exact ⟨h2.1, by simp [h1.2, h2.2]⟩
-      · exact ⟨h, by simp⟩
-    · exact ⟨h, by simp⟩
+        exact ⟨h2.1, TL.seq (r1 := ({ a1 with nextTick := some (t + a1.interval) }, o1))
+          (TL.andThen (r := (a1, o1)) h1.2 rfl) h2.2⟩
+      · exact ⟨h, TL.refl _ _⟩
+    · exact ⟨h, TL.refl _ _⟩
 
-/-! ## the step of a started agent with a selected pair -/
+/-! ## the step -/
 
-/-- started agent, a pair selected, the event neither Restart, Close nor `.renominate`: no USE-CANDIDATE request -/
-theorem step_outs_f (a : Agent) (e : Ev) (hst : a.started = true) (hk : keeps e = true) (hsel : a.selected.isSome = true)
-    (hne : ∀ now la ri v, e ≠ .renominate now la ri v) : OutsQ false (step a e).2 := by
+/-- the events that run no tick and hand no nomination to `sendRequest`: nothing valued on the wire, log untouched -/
+theorem step_quiet_tl (u : Bool) (a : Agent) (e : Ev)
+    (he : (∃ ru rp, e = .setRemoteCreds ru rp) ∨ (∃ now la src len s, e = .inboundData now la src len s) ∨
+      (∃ now len s, e = .write now len s) ∨ (∃ now id len s, e = .writeToPair now id len s) ∨ (∃ cap, e = .read cap) ∨
+      (∃ now x p, e = .restart now x p) ∨ e = .close) : TL u a (step a e) := by
+  rcases he with ⟨ru, rp, rfl⟩ | ⟨now, la, src, len, s, rfl⟩ | ⟨now, len, s, rfl⟩ | ⟨now, id, len, s, rfl⟩ | ⟨cap, rfl⟩ |
+    ⟨now, x, p, rfl⟩ | rfl
+  · refine TL.of_q ?_ ?_ <;> (simp only [step]; first | ok_cases | ilog_cases)
+  · refine TL.of_q ?_ ?_ <;> (simp only [step]; first | ok_cases | ilog_cases)
+  · refine TL.of_q ?_ ?_ <;> simp [step]
+  · refine TL.of_q ?_ ?_ <;> simp [step]
+  · refine TL.of_q ?_ ?_ <;> (simp only [step]; first | ok_cases | ilog_cases)
+  · refine TL.of_q ?_ ?_ <;> (simp only [step]; first | ok_cases | ilog_cases)
+  · refine TL.of_q ?_ ?_ <;> (simp only [step]; first | ok_cases | ilog_cases)
+
+/-- **Every event but `.renominate`**: the ghost log only grows, and a datagram carries a nomination value only if it is a
+nomination logged by this very step (the automatic check). -/
+theorem step_outs_t (a : Agent) (e : Ev) (hne : ∀ now la ri v, e ≠ .renominate now la ri v) : TL true a (step a e) := by
   cases e with
   | addLocal now c =>
     simp only [step]
-    have := (runForced_psel (a.addLocalCandidate c).1 now (Or.inl (by simp [hsel]))).2
-    simp [this]
+    have h1 : TL true a (a.addLocalCandidate c) := TL.of_q (q_addLocalCandidate a c true) (ilog_addLocalCandidate a c)
+    generalize a.addLocalCandidate c = r1 at h1 ⊢
+    obtain ⟨a1, o1⟩ := r1
+    have h2 := tl_runForced a1 now
+    generalize a1.runForced now = r2 at h2 ⊢
+    obtain ⟨a2, o2⟩ := r2
+    exact TL.seq (r1 := (a1, o1)) h1 h2
   | addRemote now c =>
     simp only [step]
     split
-    · simp
+    · exact TL.of_q (by simp) rfl
     · split
-      · simp
-      · have := (runForced_psel (a.addRemoteCandidate c).1 now (Or.inl (by simp [hsel]))).2
-        simp [this]
-  | start now ctl ru rp => simp only [step, hst]; ok_cases
-  | setRemoteCreds ru rp => simp only [step]; ok_cases
+      · exact TL.refl _ _
+      · have h1 : TL true a ((a.addRemoteCandidate c).1, (a.addRemoteCandidate c).2.1) :=
+          TL.of_q (q_addRemoteCandidate a c true) (ilog_addRemoteCandidate a c)
+        generalize a.addRemoteCandidate c = r1 at h1 ⊢
+        obtain ⟨a1, o1, x⟩ := r1
+        have h2 := tl_runForced a1 now
+        generalize a1.runForced now = r2 at h2 ⊢
+        obtain ⟨a2, o2⟩ := r2
+        exact TL.seq (r1 := (a1, o1)) h1 h2
+  | start now ctl ru rp =>
+    rw [C03.step_start_eq]
+    split
+    · exact TL.of_q (by simp) rfl
+    · split
+      · exact TL.of_q (by simp) rfl
+      · split
+        · exact TL.of_q (by simp) rfl
+        · split
+          · exact TL.of_q (by simp) rfl
+          · unfold C03.startCore
+            have h1 : TL true a (C03.startA1 ((C03.startA0 a now ctl ru rp).setConnState .checking).1,
+                ((C03.startA0 a now ctl ru rp).setConnState .checking).2 ++ [.res "ok"]) :=
+              TL.of_q (by simp) ((ilog_setConnState _ _).trans rfl)
+            have h2 := tl_runForced (C03.startA1 ((C03.startA0 a now ctl ru rp).setConnState .checking).1) now
+            exact TL.seq h1 h2
+  | setRemoteCreds ru rp => exact step_quiet_tl true a _ (Or.inl ⟨ru, rp, rfl⟩)
+  | advance now => exact tl_runTimers a now 100000
+  | inbound now la src m =>
+    simp only [step]
+    split
+    · exact TL.refl _ _
+    · split
+      · exact TL.refl _ _
+      · rename_i l _
+        have h1 : TL true a (a.handleInbound now l src m) := TL.of_q (t_handleInbound a now l src m) (ilog_handleInbound a now l src m)
+        generalize a.handleInbound now l src m = r1 at h1 ⊢
+        obtain ⟨a1, o1⟩ := r1
+        have h2 := tl_runForced a1 now
+        generalize a1.runForced now = r2 at h2 ⊢
+        obtain ⟨a2, o2⟩ := r2
+        exact TL.seq (r1 := (a1, o1)) h1 h2
+  | inboundData now la src len s => exact step_quiet_tl true a _ (Or.inr (Or.inl ⟨now, la, src, len, s, rfl⟩))
+  | write now len s => exact step_quiet_tl true a _ (Or.inr (Or.inr (Or.inl ⟨now, len, s, rfl⟩)))
+  | writeToPair now id len s => exact step_quiet_tl true a _ (Or.inr (Or.inr (Or.inr (Or.inl ⟨now, id, len, s, rfl⟩))))
+  | read cap => exact step_quiet_tl true a _ (Or.inr (Or.inr (Or.inr (Or.inr (Or.inl ⟨cap, rfl⟩)))))
+  | renominate now la ri v => exact absurd rfl (hne now la ri v)
+  | restart now u p => exact step_quiet_tl true a _ (Or.inr (Or.inr (Or.inr (Or.inr (Or.inr (Or.inl ⟨now, u, p, rfl⟩))))))
+  | close => exact step_quiet_tl true a _ (Or.inr (Or.inr (Or.inr (Or.inr (Or.inr (Or.inr rfl))))))
+
+/-- started agent, a pair selected, the event neither Restart, Close nor `.renominate`: no USE-CANDIDATE request except the
+logged nomination of the automatic check -/
+theorem step_outs_f (a : Agent) (e : Ev) (hst : a.started = true) (hk : keeps e = true) (hsel : a.selected.isSome = true)
+    (hne : ∀ now la ri v, e ≠ .renominate now la ri v) : TL false a (step a e) := by
+  cases e with
+  | addLocal now c =>
+    simp only [step]
+    have h1 : TL false a (a.addLocalCandidate c) := TL.of_q (q_addLocalCandidate a c false) (ilog_addLocalCandidate a c)
+    have hs : PSel (a.addLocalCandidate c).1 := Or.inl (by simp [hsel])
+    generalize a.addLocalCandidate c = r1 at h1 hs ⊢
+    obtain ⟨a1, o1⟩ := r1
+    have h2 := (runForced_psel a1 now hs).2
+    generalize a1.runForced now = r2 at h2 ⊢
+    obtain ⟨a2, o2⟩ := r2
+    exact TL.seq (r1 := (a1, o1)) h1 h2
+  | addRemote now c =>
+    simp only [step]
+    split
+    · exact TL.of_q (by simp) rfl
+    · split
+      · exact TL.refl _ _
+      · have h1 : TL false a ((a.addRemoteCandidate c).1, (a.addRemoteCandidate c).2.1) :=
+          TL.of_q (q_addRemoteCandidate a c false) (ilog_addRemoteCandidate a c)
+        have hs : PSel (a.addRemoteCandidate c).1 := Or.inl (by simp [hsel])
+        generalize a.addRemoteCandidate c = r1 at h1 hs ⊢
+        obtain ⟨a1, o1, x⟩ := r1
+        have h2 := (runForced_psel a1 now hs).2
+        generalize a1.runForced now = r2 at h2 ⊢
+        obtain ⟨a2, o2⟩ := r2
+        exact TL.seq (r1 := (a1, o1)) h1 h2
+  | start now ctl ru rp =>
+    rw [C03.step_start_eq]
+    split
+    · exact TL.of_q (by simp) rfl
+    · exact TL.of_q (by simp) rfl
+  | setRemoteCreds ru rp => exact step_quiet_tl false a _ (Or.inl ⟨ru, rp, rfl⟩)
   | advance now => exact (runTimers_psel a now 100000 (Or.inl hsel)).2
   | inbound now la src m =>
     simp only [step]
     split
-    · simp
+    · exact TL.refl _ _
     · split
-      · simp
+      · exact TL.refl _ _
       · rename_i l _
-        have h1 := f_handleInbound a now l src m hsel
-        have := (runForced_psel (a.handleInbound now l src m).1 now (Or.inl (ksel_handleInbound a now l src m hsel))).2
-        simp [this, h1]
-  | inboundData now la src len s => simp only [step]; ok_cases
-  | write now len s => simp [step]
-  | writeToPair now id len s => simp [step]
-  | read => simp only [step]; ok_cases
+        have h1 : TL false a (a.handleInbound now l src m) :=
+          TL.of_q (f_handleInbound a now l src m hsel) (ilog_handleInbound a now l src m)
+        have hs : PSel (a.handleInbound now l src m).1 := Or.inl (ksel_handleInbound a now l src m hsel)
+        generalize a.handleInbound now l src m = r1 at h1 hs ⊢
+        obtain ⟨a1, o1⟩ := r1
+        have h2 := (runForced_psel a1 now hs).2
+        generalize a1.runForced now = r2 at h2 ⊢
+        obtain ⟨a2, o2⟩ := r2
+        exact TL.seq (r1 := (a1, o1)) h1 h2
+  | inboundData now la src len s => exact step_quiet_tl false a _ (Or.inr (Or.inl ⟨now, la, src, len, s, rfl⟩))
+  | write now len s => exact step_quiet_tl false a _ (Or.inr (Or.inr (Or.inl ⟨now, len, s, rfl⟩)))
+  | writeToPair now id len s => exact step_quiet_tl false a _ (Or.inr (Or.inr (Or.inr (Or.inl ⟨now, id, len, s, rfl⟩))))
+  | read cap => exact step_quiet_tl false a _ (Or.inr (Or.inr (Or.inr (Or.inr (Or.inl ⟨cap, rfl⟩)))))
   | renominate now la ri v => exact absurd rfl (hne now la ri v)
   | restart now u p => simp [keeps] at hk
   | close => simp [keeps] at hk
+
+/-- `.renominate`: the ghost log gets exactly the nomination `issueOf` describes -/
+theorem step_renominate_log (a : Agent) (now la ri value : Nat) :
+    (step a (.renominate now la ri value)).1.nomIssued =
+      a.nomIssued ++ (issueOf a (.renominate now la ri value)).toList := by
+  by_cases hc : a.controlling = true
+  · by_cases he : a.cfg.enableRenomination = true
+    · cases hl : a.localByAddr la with
+      | none => simp [step, issueOf, hc, he, hl]
+      | some l =>
+        cases hr : a.remotes[ri]? with
+        | none => simp [step, issueOf, hc, he, hl, hr]
+        | some r =>
+          cases hp : a.findPair l r with
+          | none => simp [step, issueOf, hc, he, hl, hr, hp]
+          | some p =>
+            have e1 : (step a (.renominate now la ri value)).1.nomIssued =
+                (a.sendRequest now l r true (if value > 0 then some value else none)).1.nomIssued ++ [(value, l.addr, r.addr)] := by
+              simp only [step, hc, he, hl, hr, hp, Bool.not_true, Bool.false_eq_true, if_false]
+            have e2 : issueOf a (.renominate now la ri value) = some (value, la, r.addr) := by
+              simp only [issueOf, hc, he, hl, hr, hp, Bool.and_self, if_true, Option.isSome_some]
+            rw [e1, e2, ilog_field (ilog_sendRequest a now l r true _), localByAddr_addr hl]
+            rfl
+    · have he' : a.cfg.enableRenomination = false := by simpa using he
+      simp [step, issueOf, hc, he']
+  · have hc' : a.controlling = false := by simpa using hc
+    simp [step, issueOf, hc']
+
+theorem issuesOf_renominate (a : Agent) (now la ri value : Nat) :
+    issuesOf a (.renominate now la ri value) = (issueOf a (.renominate now la ri value)).toList :=
+  logSfx_of_append (step_renominate_log a now la ri value)
+
+/-! ### a controlled agent issues nothing -/
+
+theorem ilog_contactCandidates_cld (a : Agent) (now : Nat) (hc : a.controlling = false) :
+    (a.contactCandidates now).1.ilog = a.ilog := by
+  unfold Agent.contactCandidates
+  rw [if_neg (by rw [hc]; exact Bool.false_ne_true)]
+  ilog_cases
+
+theorem ilog_contact_cld (a : Agent) (now : Nat) (hc : a.controlling = false) : (a.contact now).1.ilog = a.ilog := by
+  rw [C03.contact_eq]
+  have hk : (C03.chk a now).controlling = false := by
+    unfold C03.chk; split <;> exact hc
+  have hki : (C03.chk a now).ilog = a.ilog := by
+    unfold C03.chk; split <;> rfl
+  split
+  · rfl
+  · split
+    · rfl
+    · split
+      · exact (ilog_setConnState _ _).trans hki
+      · exact (ilog_contactCandidates_cld _ now hk).trans hki
+    · exact ilog_contactCandidates_cld a now hc
+
+theorem ilog_runForced_cld (a : Agent) (now : Nat) (hc : a.controlling = false) : (a.runForced now).1.ilog = a.ilog := by
+  unfold Agent.runForced
+  split
+  · have h := ilog_contact_cld { a with forcePending := false } now hc
+    generalize Agent.contact { a with forcePending := false } now = r at h ⊢
+    obtain ⟨a1, o1⟩ := r
+    exact h
+  · rfl
+
+theorem ilog_runTimers_cld (a : Agent) (now fuel : Nat) (hc : a.controlling = false) :
+    (a.runTimers now fuel).1.ilog = a.ilog := by
+  induction fuel generalizing a with
+  | zero => rfl
+  | succ n ih =>
+    unfold Agent.runTimers
+    split
+    · rename_i t _
+      split
+      · have h1 := ilog_contact_cld a t hc
+        have hc1 : (a.contact t).1.controlling = false := (congrArg Core.controlling (core_contact a t)).trans hc
+        generalize a.contact t = r at h1 hc1 ⊢
+        obtain ⟨a1, o1⟩ := r
+        simp only [] at h1 hc1 ⊢
+        have h2 := ih { a1 with nextTick := some (t + a1.interval) } hc1
+        generalize Agent.runTimers { a1 with nextTick := some (t + a1.interval) } now n = r2 at h2 ⊢
+        obtain ⟨a2, o2⟩ := r2
+        exact h2.trans h1
+      · rfl
+    · rfl
+
+/-- **An agent that is in the controlled role after the step has issued nothing in it**: `RenominateCandidate` is refused,
+and the automatic check belongs to the controlling selector (the role only changes before the tick an event runs). -/
+theorem issuesOf_controlled (a : Agent) (e : Ev) (hc : (step a e).1.controlling = false) : issuesOf a e = [] := by
+  apply logSfx_of_eq
+  apply ilog_field
+  have hrf : ∀ (b : Agent) (now : Nat), (b.runForced now).1.controlling = false → (b.runForced now).1.ilog = b.ilog :=
+    fun b now h => ilog_runForced_cld b now ((congrArg Core.controlling (core_runForced b now)).symm.trans h)
+  cases e with
+  | addLocal now c =>
+    have e1 : (step a (.addLocal now c)).1 = ((a.addLocalCandidate c).1.runForced now).1 := rfl
+    rw [e1] at hc ⊢
+    exact (hrf _ now hc).trans (ilog_addLocalCandidate a c)
+  | addRemote now c =>
+    by_cases h1 : a.closed = true
+    · simp [step, h1]
+    · by_cases h2 : (c.tt == 1) = true
+      · simp [step, h1, h2]
+      · have e1 : (step a (.addRemote now c)).1 = ((a.addRemoteCandidate c).1.runForced now).1 := by
+          simp only [step, h1, h2, Bool.false_eq_true, if_false]
+        rw [e1] at hc ⊢
+        exact (hrf _ now hc).trans (ilog_addRemoteCandidate a c)
+  | start now ctl ru rp =>
+    rw [C03.step_start_eq] at hc ⊢
+    by_cases h1 : a.closed = true
+    · simp [h1]
+    · by_cases h2 : a.started = true
+      · simp [h1, h2]
+      · by_cases h3 : (ru == "") = true
+        · simp [h1, h2, h3]
+        · by_cases h4 : (rp == "") = true
+          · simp [h1, h2, h3, h4]
+          · simp only [h1, h2, h3, h4, Bool.false_eq_true, if_false] at hc ⊢
+            unfold C03.startCore at hc ⊢
+            simp only [] at hc ⊢
+            exact (hrf _ now hc).trans ((ilog_setConnState _ _).trans rfl)
+  | setRemoteCreds ru rp => simp only [step]; ilog_cases
+  | advance now =>
+    have e1 : (step a (.advance now)).1 = (a.runTimers now 100000).1 := rfl
+    rw [e1] at hc ⊢
+    exact ilog_runTimers_cld a now 100000 ((congrArg Core.controlling (core_runTimers a now 100000)).symm.trans hc)
+  | inbound now la src m =>
+    rw [C03.step_inbound_proj] at hc ⊢
+    by_cases h1 : (a.closed || !a.started) = true
+    · simp [h1]
+    · cases hl : a.localByAddr la with
+      | none => simp [h1, hl]
+      | some l =>
+        simp only [h1, hl, Bool.false_eq_true, if_false] at hc ⊢
+        exact (hrf _ now hc).trans (ilog_handleInbound a now l src m)
+  | inboundData now la src len s => simp only [step]; ilog_cases
+  | write now len s => simp [step]
+  | writeToPair now id len s => simp [step]
+  | read cap => simp only [step]; ilog_cases
+  | renominate now la ri v =>
+    have hcc : a.controlling = false := by
+      have := congrArg Core.controlling (core_step a (.renominate now la ri v))
+      simp only [core_controlling] at this
+      rw [← this]; exact hc
+    simp [step, hcc]
+  | restart now u p => simp only [step]; ilog_cases
+  | close => simp only [step]; ilog_cases
+
+/-- what `issueOf` describes is among the nominations the step issues -/
+theorem issueOf_mem_issuesOf {a : Agent} {e : Ev} {x : Nat × Nat × Nat} (h : issueOf a e = some x) : x ∈ issuesOf a e := by
+  cases e with
+  | renominate now la ri v => rw [issuesOf_renominate, h]; simp
+  | _ => simp [issueOf] at h
+
+/-- the ghost log only grows, in every step -/
+theorem step_log_prefix (a : Agent) (e : Ev) : a.nomIssued <+: (step a e).1.nomIssued := by
+  by_cases hr : ∃ now la ri value, e = .renominate now la ri value
+  · obtain ⟨now, la, ri, value, rfl⟩ := hr
+    rw [step_renominate_log]; exact List.prefix_append _ _
+  · exact (step_outs_t a e (fun now la ri v h => hr ⟨now, la, ri, v, h⟩)).1
+
+theorem step_log_eq (a : Agent) (e : Ev) : (step a e).1.nomIssued = a.nomIssued ++ issuesOf a e := by
+  obtain ⟨s, hs⟩ := step_log_prefix a e
+  rw [issuesOf, logSfx_of_append hs.symm, hs]
 
 end IceProofs.C20S
